@@ -928,6 +928,25 @@ def eval_ncases(ck, name, cases):
     return parse_report(out, H_LISTS), out
 
 
+def diag_nodes(ck, c):
+    """a violating history over two nodes: does the product model with the prefix = DATABASE name explain what was observed?"""
+    txt = ("From Coq Require Import List ZArith Bool String Uint63.\n"
+           "From Qryn Require Import model.Labels model.SeriesIndex model.CacheKey model.SeriesNodes.\n"
+           "Import ListNotations.\nOpen Scope Z_scope.\n"
+           "Definition cases : list ncase := [" + ncase_to_coq(c) + "].\n"
+           "Definition R := Eval vm_compute in mdiag cases.\nPrint R.\n")
+    rc, out = ck.coq_eval("C04_nodes_diag", txt)
+    r = parse_report(out, ["code", "db"]) if rc == 0 else None
+    if not r:
+        return None
+    if r["code"] and not r["db"]:
+        return ("the observations differ from the product model with the code's cache prefix (node name) and ARE those of the product model whose prefix is the "
+                "database name (SeriesNodes.mrun_obs n_db): the nodes share their cache entries (props/C04.v acked_sample_is_indexed_on_its_node_refuted_for_database_prefix)")
+    if r["code"]:
+        return "the observations differ from the product model under the node-name prefix and under the database-name prefix"
+    return "the observations are those of the product model with the code's prefix (node name)"
+
+
 def eval_cases(ck, name, cases):
     """histories with a group step are judged by model/SharedInsert.v, the others by model/SeriesIndex.v; a history over two
     nodes is judged node by node (node_projections)"""
@@ -1252,8 +1271,9 @@ def run_hist(ck):
                 c0 = ran[0]
                 break
         c = shrink_hist(ck, c0)
+        diag = diag_nodes(ck, c) if has_nodes(c) and all(st["k"] in ("push", "reset") for st in c["steps"]) else None
         ck.violation({"property": "C04", "part": "hist", "kind": "acknowledged sample without series row of its day and type",
-                      "case": c, "readable": show_hist(c), "explanation": "hv (model/SeriesIndex.v) on the observed inserts",
+                      "case": c, "readable": show_hist(c), "explanation": "hv (model/SeriesIndex.v) on the observed inserts" + ("; " + diag if diag else ""),
                       "shrunk": "from %d steps (generated history %s) to %d steps, every candidate re-run through the real code" % (len(c0["steps"]), c0["id"], len(c["steps"])),
                       "replay": "seriesid --mode hist --cases <file with this case>"})
     elif res["M_hist"]:
